@@ -263,6 +263,35 @@ def _freq_filter_cases(H, cases):
             S2.explore(body2)
 
 
+@harness(PROPERTY, "filters_leave_their_arguments_alone", functions=["ibldsp.fourier:_freq_filter"],
+         clause="low-pass plus high-pass with the same corners is the identity, band-pass is their product: for corners handed over as an array, and handed over again")
+def h_filters_frame(H):
+    for typ in ("bp", "lp", "hp"):
+        S = H.session(f"freq_filter.frame.{typ}")
+
+        def body(it, typ=typ):
+            n = z3.Int("n")
+            si = z3.Real("si")
+            it.ctx.assume(z3.And(n >= 2, si > 0))
+            ts = A.fresh_array("ts", "float64", (n,))
+            nb = 4 if typ == "bp" else 2
+            b = A.fresh_array("corners", "float64", (nb,))
+            b0, t0 = b.snapshot(), ts.snapshot()
+            seen = []
+
+            def fv(it_, a, k):
+                vals = [term(v) for v in (it_.to_list(a[1]) if isinstance(a[1], A.SArr) else a[1])]
+                seen.append((k.get("typ", "lp"), vals))
+                return A.fresh_array("resp_" + k.get("typ", "lp"), "float64", a[0].shape)
+            it.session.contracts[F._freq_vector] = fv
+            run_function(it, F._freq_filter, [ts, SV(si), b], {"typ": typ})
+            q = z3.Int("q")
+            it.ctx.oblige(f"filters.corners_untouched.{typ}", z3.And(*[b.read((z3.IntVal(j),)) == b0((z3.IntVal(j),)) for j in range(nb)]), "post",
+                          "the caller's corner-frequency array is not modified (the next call with it filters at the same corners)")
+            it.ctx.oblige(f"filters.signal_untouched.{typ}", A.forall([q], lambda: z3.Implies(z3.And(q >= 0, q < n), ts.read((q,)) == t0((q,)))), "post", assume=False)
+        S.explore(body)
+
+
 # ----------------------------------------------------------------------------- bounded
 def native_convolve(pairs):
     bad = []
@@ -329,6 +358,16 @@ def b_native(B):
         for b4 in ([0.05, 0.1, 0.2, 0.3], [0.05, 0.3, 0.1, 0.4], [0.1, 0.3, 0.1, 0.3]):
             if not np.allclose(F.bp(x, 1.0, b4), F.hp(F.lp(x, 1.0, b4[2:]), 1.0, b4[:2]), atol=1e-9):
                 bad.append(("bp", n, b4))
+        # a sampling interval other than 1, the corners handed over as one float64 array that is used again for the next calls
+        si = 1 / 2500.0
+        ba = np.array([50.0, 100.0])
+        ba4 = np.array([30.0, 60.0, 300.0, 400.0])
+        ref = (F.lp(x, si, [50.0, 100.0]), F.hp(x, si, [50.0, 100.0]), F.bp(x, si, [30.0, 60.0, 300.0, 400.0]))
+        for rep_ in range(2):
+            got = (F.lp(x, si, ba), F.hp(x, si, ba), F.bp(x, si, ba4))
+            if not (all(np.allclose(g_, r_, atol=1e-9) for g_, r_ in zip(got, ref)) and np.allclose(got[0] + got[1], x, atol=1e-9) and ba.tolist() == [50.0, 100.0] and ba4.tolist() == [30.0, 60.0, 300.0, 400.0]):
+                bad.append(("filters called again with the same corner array", n, rep_, ba.tolist()))
+                break
         ff = F.fscale(n, 0.5)
         if not np.allclose(ff, np.where(np.arange(n) <= n // 2, np.arange(n), np.arange(n) - n) / n / 0.5):
             bad.append(("fscale", n))
